@@ -90,7 +90,9 @@ def fname_of(case, f):
 
 def rename_functions(case, rng):
     """give some functions telling names (main, fa, fb, ga, helper), consistently in every reference"""
-    names = ["main", "fa", "fb", "ga", "helper"]
+    # some names are regular-expression look-alikes of each other: a literal filter "f.a" must not select "fxa"
+    names = rng.choice([["main", "fa", "fb", "ga", "helper"], ["main", "f.a", "fxa", "g.b", "gyb"], ["f.a", "fxa", "f.", "fb", "main"]])
+    names = list(names)
     rng.shuffle(names)
     ren = {}
     seen = set()
